@@ -44,12 +44,17 @@ def walk_zone(args) -> list:
     segs = [(Instant.min_value, None)]
     if mode == "windows":
         segs = [(Instant.min_value, Instant.from_utc(2100, 1, 1, 0, 0)), (Instant.from_utc(9989, 6, 1, 0, 0), None)]
+    walked = []
     for seg_start, seg_stop in segs:
         evs.append({"op": "seg", "from": t3i(seg_start)})
         cur = seg_start
         first = True
         while True:
-            iv = z.get_zone_interval(cur)
+            try:
+                iv = z.get_zone_interval(cur)
+            except Exception as ex:  # noqa: BLE001 - an instant with no interval: the event is the verdict's evidence
+                evs.append({"op": "iv_exc", "at": t3i(cur), "exc": type(ex).__name__})
+                break
             e = iv_event(iv)
             e["from_min"] = first and seg_start == Instant.min_value
             first = False
@@ -66,14 +71,21 @@ def walk_zone(args) -> list:
                 pts.append(lo + span / rnd.randint(2, 9))
             ok = True
             for p in pts:
-                got = z.get_zone_interval(p)
-                if got != iv or p not in iv or z.get_utc_offset(p) != iv.wall_offset:
+                try:
+                    got = z.get_zone_interval(p)
+                    if got != iv or p not in iv or z.get_utc_offset(p) != iv.wall_offset:
+                        ok = False
+                except Exception:  # noqa: BLE001 - no answer for an instant inside the interval
                     ok = False
             fl["probes"] = ok
             if iv.has_start and iv.start > Instant.min_value:
-                before = z.get_zone_interval(iv.start - eps)
-                fl["instant_before_start_is_outside"] = (iv.start - eps) not in iv and before != iv
+                try:
+                    before = z.get_zone_interval(iv.start - eps)
+                    fl["instant_before_start_is_outside"] = (iv.start - eps) not in iv and before != iv
+                except Exception:  # noqa: BLE001
+                    fl["instant_before_start_is_outside"] = False
             e["flags"] = fl
+            walked.append(iv)
             if zid.startswith("fixed:"):
                 e["fixed"] = int(zid[6:])
             evs.append(e)
@@ -86,6 +98,46 @@ def walk_zone(args) -> list:
                 break
             if len(evs) > 40000:
                 break
+    # the same zone object asked again in adversarial orders: backwards, and jumping by multiples of 512 x 32 days (instants that
+    # share a slot of the interval cache); every answer must be the interval of the walk that contains the instant
+    def find(t):
+        lo_i, hi_i = 0, len(walked) - 1
+        while lo_i <= hi_i:
+            mid = (lo_i + hi_i) // 2
+            w = walked[mid]
+            if w.has_start and t < w.start:
+                hi_i = mid - 1
+            elif w.has_end and t >= w.end:
+                lo_i = mid + 1
+            else:
+                return w
+        return None
+
+    if len(walked) > 1:
+        pts = []
+        for w in rnd.sample(walked, min(len(walked), 40)):
+            lo = w.start if w.has_start else Instant.min_value
+            hi = (w.end - eps) if w.has_end else Instant.max_value
+            p0 = lo + (hi - lo) / rnd.randint(2, 9) if hi - lo > eps else lo
+            pts.append(p0)
+            for k in (1, 2, 3, rnd.randint(1, 12)):
+                for sgn in (-1, 1):
+                    try:
+                        pts.append(p0 + Duration.from_days(sgn * k * 512 * 32 + rnd.choice([0, 0, 1, -1, 31])))
+                    except Exception:  # noqa: BLE001
+                        pass
+        order = sorted(pts, reverse=True) if rnd.random() < 0.5 else pts
+        for p in order:
+            want = find(p)
+            if want is None:
+                continue    # outside the walked windows
+            try:
+                got = z.get_zone_interval(p)
+            except Exception as ex:  # noqa: BLE001
+                evs.append({"op": "iv_exc", "at": t3i(p), "exc": type(ex).__name__})
+                continue
+            evs.append({"op": "requery", "at": t3i(p), "start": t3i(got._raw_start), "end": t3i(got._raw_end), "wall": got.wall_offset.seconds,
+                        "same_as_walk": got == want, "offset_agrees": z.get_utc_offset(p) == want.wall_offset})
     evs.append({"op": "endz"})
     return evs
 
